@@ -329,6 +329,11 @@ structure SubInfo (S : Sys) where
   src : Option String := none
   /-- subscription point of the first subscription in the chain (to the collection itself) -/
   rootK : Nat := 0
+  /-- taken from a mirror that may not have caught up: only the property predicate is checked -/
+  race : Bool := false
+  remote : Bool := false
+  /-- the source mirror was built from an incremental subscription -/
+  srcIncr : Bool := false
 
 structure CaseSt (S : Sys) where
   id : String
@@ -367,13 +372,16 @@ def feedLine (cd : Codec S) (st : CaseSt S) (line : String) : CaseSt S :=
     match cd.parseC c with
     | some c => { st with obs := ⟨c, false⟩, realFinal := some (c, false) }
     | none => st.diff s!"unparsable init {c}"
-  | "sub" :: sid :: mode :: _ :: kind :: rest =>
+  | "sub" :: sid :: mode :: place :: kind :: rest =>
     let getOpt (key : String) (dflt : Nat) : Nat :=
       match rest.find? (·.startsWith (key ++ "=")) with
       | some t => ((t.drop (key.length + 1)).toString.toNat?).getD dflt
       | none => dflt
     let src := (rest.find? (·.startsWith "src=")).map (fun t => (t.drop 4).toString)
     let k := st.groups.size
+    let srcIncr := match src.bind (fun id => st.subs.find? (·.sid == id)) with
+      | some s0 => s0.incr
+      | none => false
     let (obsAt, rootK) : Obs S.C × Nat :=
       match src.bind (fun id => st.subs.find? (·.sid == id)) with
       | none => (st.obs, k)
@@ -382,7 +390,8 @@ def feedLine (cd : Codec S) (st : CaseSt S) (line : String) : CaseSt S :=
         let t0 := S.taskRun .pinned (sub0.mirrorInit s0.max) (sub0.stream (st.groups.toList.drop s0.k).flatten)
         (⟨t0.m.v, t0.m.done⟩, s0.rootK)
     { st with subs := st.subs ++ [{ sid, k, incr := mode == "incr", mirror := kind == "mirror",
-                                    obsAt, buf := getOpt "buf" 1000000, max := getOpt "max" 1000000, src, rootK }] }
+                                    obsAt, buf := getOpt "buf" 1000000, max := getOpt "max" 1000000, src, rootK,
+                                    race := rest.contains "race", remote := place == "remote", srcIncr }] }
   | "op" :: rest =>
     let call : Option (Call S.Op) :=
       if rest == ["done"] then some .done else (cd.parseOp rest).map .op
@@ -431,6 +440,11 @@ def causes (_cd : Codec S) (st : CaseSt S) (s : SubInfo S) (mirrorTask : Bool) :
   (if st.badCalls.any (fun i => s.rootK ≤ i) then ["retain-mutation"] else []) ++
   (if mirrorTask && s.incr && s.obsAt.done && S.inheritDone then ["incremental-after-done"] else [])
 
+/-- finding F14: a remote subscriber of a mirror that is still receiving its incremental initial value is
+closed when the mirror forwards the unserializable `InitialComplete` -/
+def f14 (s : SubInfo S) (err : String) : Bool :=
+  s.race && s.remote && s.srcIncr && (err == "Closed" || err == "err:Closed")
+
 def causeText (cs : List String) (modelAgrees : Bool) : String :=
   if !modelAgrees then "unexplained"
   else if cs.isEmpty then "unexplained-model-agrees" else "+".intercalate cs
@@ -462,12 +476,12 @@ def checkSub (cd : Codec S) (st : CaseSt S) (s : SubInfo S) : CaseSt S :=
       let tp := (tps.find? (fun t => showT t == real)).getD (S.taskRun .pinned (sub.mirrorInit s.max) stream)
       let tfs := streams.map (fun str => S.taskRun .fixed (sub.mirrorInit s.max) str)
       let tf := (tfs.find? (fun t => showT t == real)).getD (S.taskRun .fixed (sub.mirrorInit s.max) stream)
-      let agrees := showT tp == real
+      let agrees := showT tp == real || s.race
       let st := if agrees then st
         else if showT tf == real then { st with out := st.out.push s!"VARIANT {st.id} sub {s.sid}: mirror behaves like the repaired task (F13 fixed)" }
         else st.diff s!"sub {s.sid} (k={s.k} {if s.incr then "incr" else "snap"}): mirror real [{real}] model [{showT tp}]"
       -- property predicate on the real data
-      let cs := causeText (causes cd st s true) agrees
+      let cs := if f14 s err then "remote-sub-of-incomplete-mirror" else causeText (causes cd st s true) agrees
       let st := if c == fc then st else st.fail cd.name s!"mirror-contents-differ sub={s.sid} mirror={c} collection={fc}" cs
       let st := if err == "-" then st else st.fail cd.name s!"mirror-error sub={s.sid} err={err}" cs
       let st := if err != "-" || done == showBool fd then st else st.fail cd.name s!"mirror-done-flag sub={s.sid} mirror={done} collection={showBool fd}" cs
@@ -488,11 +502,12 @@ def checkSub (cd : Codec S) (st : CaseSt S) (s : SubInfo S) : CaseSt S :=
       if cd.hashed then
         (splitBy segLens (mtoks ++ [tail])).map sortStrs == (splitBy segLens real).map sortStrs
       else mtoks ++ [tail] == real
+    let eq := eq || s.race
     let st := if eq then st
       else st.diff s!"sub {s.sid} (k={s.k} {if s.incr then "incr" else "snap"}): recv real [{"; ".intercalate real}] model [{"; ".intercalate (mtoks ++ [tail])}]"
     let st := if s.incr then st else
       match st.initials.find? (·.1 == s.sid) with
-      | some (_, c) => if c == cd.showC s.obsAt.v then st else st.diff s!"sub {s.sid}: initial real {c} model {cd.showC s.obsAt.v}"
+      | some (_, c) => if c == cd.showC s.obsAt.v || s.race then st else st.diff s!"sub {s.sid}: initial real {c} model {cd.showC s.obsAt.v}"
       | none => st.diff s!"sub {s.sid}: no initial line"
     -- (b) fold the real results by hand
     let start : Option S.C := if s.incr then some S.empty else
@@ -508,7 +523,7 @@ def checkSub (cd : Codec S) (st : CaseSt S) (s : SubInfo S) : CaseSt S :=
             let r := S.handle acc.1 e
             (r.1, if r.2.isSome then acc.2 ++ [s!"{tok} -> {showOptErr r.2}"] else acc.2)
           | none => (acc.1, acc.2 ++ [tok])) (m0, [])
-      let cs := causeText (causes cd st s false) eq
+      let cs := if f14 s (real.getLast?.getD "") then "remote-sub-of-incomplete-mirror" else causeText (causes cd st s false) eq
       let st := if bad.isEmpty then st else st.fail cd.name s!"recv-error-or-inapplicable-event sub={s.sid} {"; ".intercalate bad}" cs
       let st := if cd.showC m.v == fc then st else st.fail cd.name s!"hand-fold-differs sub={s.sid} folded={cd.showC m.v} collection={fc}" cs
       let st := if m.done == fd then st else st.fail cd.name s!"hand-done-flag sub={s.sid} sawDone={showBool m.done} collection={showBool fd}" cs
